@@ -198,7 +198,7 @@ class Measure:
 #                                   linear Gaussian models
 # ======================================================================================
 SHAPES_QUICK = [(1, 1), (2, 2), (3, 2), (2, 3)]
-SHAPES_THOROUGH = [(1, 1), (2, 1), (1, 2), (2, 2), (3, 2), (2, 3), (3, 3), (4, 3), (3, 4)]
+SHAPES_THOROUGH = [(1, 1), (2, 1), (1, 2), (2, 2), (3, 2), (2, 3), (3, 3), (4, 3), (3, 4), (4, 4)]
 
 
 def model_specs(tier, seed):
@@ -240,6 +240,15 @@ def model_specs(tier, seed):
                                   nvar=[_r(x, 4) for x in nvar], d=[_r(x) for x in d]))
     specs.sort(key=lambda s: (s["ns"] + s["nd"], s["ns"], s["rkind"] != "full", s["noise"] != 1.0, s["rkind"],
                               s["noise"], s["dkind"]))
+    # square models with n_rel >= 4 and prescribed, well separated singular values: only used for the resume x batch
+    # schedule product (split points strictly inside a batch that is not the last one need n_rel >= 4)
+    for n in ((4,) if tier == "quick" else (5, 6)):
+        rng = np.random.default_rng([3402, int(seed), n])
+        sv = np.linspace(0.8, 2.0, n)
+        Rm = np.round(_rot(rng, n) @ np.diag(sv) @ _rot(rng, n).T, 3)
+        specs.append(dict(ns=n, nd=n, rkind="full", noise=1.0, dkind="gen", sched=True,
+                          R=[[_r(x) for x in row] for row in Rm], nvar=[1.0] * n,
+                          d=[_r(x) for x in np.round(rng.uniform(-2., 2., n), 2)]))
     return specs
 
 
